@@ -157,10 +157,15 @@ func genStalled(t *rapid.T) *stalledT {
 // ---- generator ---------------------------------------------------------------------------------------------
 
 var (
-	pubTopics   = []string{"t/0", "t/1", "t/2", "t/3"}
-	willTopics  = []string{"w/0", "w/1"}
-	retTopics   = []string{"r/0", "r/1", "r/2"}
-	allFilters  = []string{"t/#", "t/+", "t/0", "t/1", "w/#", "r/#", "r/+", "#", "$share/g/t/#", "$share/g/t/0", "$share/h/w/#", "$SYS/#"}
+	pubTopics  = []string{"t/0", "t/1", "t/2", "t/3"}
+	willTopics = []string{"w/0", "w/1"}
+	retTopics  = []string{"r/0", "r/1", "r/2", "r/a/c", "r/b/c"}
+	allFilters = []string{"t/#", "t/+", "t/0", "t/1", "w/#", "r/#", "r/+", "#", "$share/g/t/#", "$share/g/t/0", "$share/h/w/#", "$SYS/#", "+/0", "r/+/c", "+/+/c"}
+	// retFilters: what the retained-message scans of the "retain" role use. Wildcard filters whose LAST level is a literal
+	// ("+/0", "r/+/c") end their walk of the trie with a direct look at one node - the node that a concurrent retained
+	// PUBLISH to r/0 or r/a/c sets or clears; the literal filters make such nodes exist with no retained message.
+	retFilters  = []string{"+/0", "+/1", "+/2", "r/+/c", "+/+/c", "+/a/c", "+/0", "r/+/c", "r/#", "r/+", "#", "r/0", "r/1", "r/a/c"}
+	keeperTopic = "keep/0" // a retained message that is always there, so that a scan never returns early ("nothing retained")
 	roleNames   = []string{"fan", "will", "expiry", "retain", "mixed"}
 	hkKinds     = []string{"clients", "retained", "inflight", "wills", "sys", "probe"}
 	hkOffsets   = []int64{0, 0, 2, 40, 100000, 10000000000}
@@ -179,9 +184,9 @@ func genScenario(t *rapid.T) scenarioT {
 		MaximumInflight: rapid.SampledFrom([]uint16{0, 0, 6}).Draw(t, "maxInflight"),
 	}
 	n := rapid.IntRange(16, 64).Draw(t, "clients")
-	sc.Focus = rapid.SampledFrom([]string{"", "", "", "wills", "expiry"}).Draw(t, "focus")
+	sc.Focus = rapid.SampledFrom([]string{"", "", "", "wills", "expiry", "retain", "retain"}).Draw(t, "focus")
 	pool := n/4 + 2 // shared client ids: several goroutines use the same id, so sessions are taken over all the time
-	if sc.Focus != "" {
+	if sc.Focus == "wills" || sc.Focus == "expiry" {
 		pool = rapid.IntRange(2, 5).Draw(t, "pool")
 		if sc.Opts.MaxSessionExp == 0 && sc.Focus == "expiry" {
 			sc.Opts.MaxSessionExp = rapid.SampledFrom([]uint32{0, 5, 60}).Draw(t, "maxSessExp2")
@@ -201,16 +206,21 @@ func genScenario(t *rapid.T) scenarioT {
 			if rapid.IntRange(0, 3).Draw(t, "shared-id") == 0 {
 				s.ID = id()
 			}
+		case "retain":
+			s.ID = id()
+			if sc.Focus == "retain" {
+				s.ID = fmt.Sprintf("r%d", i) // no takeovers here: the connections live long enough to scan and publish
+			}
 		default:
 			s.ID = id()
 		}
-		if sc.Focus != "" && role != "fan" {
+		if (sc.Focus == "wills" || sc.Focus == "expiry") && role != "fan" {
 			s.Ver = rapid.SampledFrom([]byte{5, 5, 5, 4}).Draw(t, "ver2")
 			s.Clean = rapid.IntRange(0, 7).Draw(t, "clean2") == 0
 		}
 		if s.Ver == 5 {
 			exps := []int64{-1, 0, 1, 30, 4000000000}
-			if sc.Focus != "" {
+			if sc.Focus == "wills" || sc.Focus == "expiry" {
 				exps = []int64{0, 30, 30, 100, 4000000000}
 			}
 			if e := rapid.SampledFrom(exps).Draw(t, "expiry"); e >= 0 {
@@ -265,7 +275,7 @@ func genScenario(t *rapid.T) scenarioT {
 	for i := 0; i < n; i++ {
 		role := rapid.SampledFrom(roleNames).Draw(t, "role")
 		if sc.Focus != "" && rapid.IntRange(0, 9).Draw(t, "focused") < 8 {
-			role = map[string]string{"wills": "will", "expiry": "expiry"}[sc.Focus]
+			role = map[string]string{"wills": "will", "expiry": "expiry", "retain": "retain"}[sc.Focus]
 		}
 		sc.Roles = append(sc.Roles, role)
 		var script []stepT
@@ -304,7 +314,7 @@ func genScenario(t *rapid.T) scenarioT {
 						}
 						script = append(script, p)
 					case k < 85:
-						script = append(script, sub([]string{"r/#", "r/+", "#", "r/0"}))
+						script = append(script, sub(retFilters))
 					default:
 						script = append(script, stepT{Op: "settle"})
 					}
@@ -357,8 +367,16 @@ func genScenario(t *rapid.T) scenarioT {
 			op.Topic = rapid.SampledFrom(append(append(append([]string{}, pubTopics...), willTopics...), retTopics...)).Draw(t, "itopic")
 			op.Qos = byte(rapid.IntRange(0, 2).Draw(t, "iqos"))
 			op.Retain = rapid.IntRange(0, 4).Draw(t, "iretain") == 0
+			if sc.Focus == "retain" {
+				op.Topic = rapid.SampledFrom(retTopics).Draw(t, "itopic2")
+				op.Retain = true
+			}
 		} else {
-			op.Topic = rapid.SampledFrom([]string{"t/#", "w/#", "r/+", "#", "t/0"}).Draw(t, "ifilter")
+			fs := []string{"t/#", "w/#", "r/+", "#", "t/0", "+/0", "r/+/c", "+/+/c"}
+			if sc.Focus == "retain" {
+				fs = retFilters
+			}
+			op.Topic = rapid.SampledFrom(fs).Draw(t, "ifilter")
 		}
 		sc.Inline = append(sc.Inline, op)
 	}
@@ -1136,6 +1154,7 @@ func (r *runner) probeDeferred(st map[string]int64) {
 func (r *runner) inlineMain(st map[string]int64, sp map[string]kindSpan, stop *atomic.Bool) {
 	defer r.guard("inline goroutine")
 	for round := 0; !stop.Load() && round < 100000; round++ {
+		_ = r.srv.Publish(keeperTopic, []byte("keep"), true, 0) // housekeeping with a clock far ahead may have expired it
 		for _, op := range r.sc.Inline {
 			if stop.Load() {
 				return
@@ -1263,6 +1282,7 @@ func runScenario(in childIn) *resultT {
 		span(r.spans[n+2], "shutdown-during-traffic", r.since())
 		r.closeRet.Store(true)
 	}()
+	_ = srv.Publish(keeperTopic, []byte("keep"), true, 0)
 	begin.Done()
 
 	allDone := make(chan struct{})
